@@ -390,9 +390,10 @@ def eval_protect_task(f, path, hashes):
         return "UNSUPPORTED-FORM: %s" % e, log
 
 
-def eval_protect_cb(f, path, start_ok, reply_ok, stream):
+def eval_protect_cb(f, path, start_ok, reply_ok, stream, marker=True):
     """the protect callback handed to the blob store (async block in ProtectCallbackSender::into_cb) evaluated (K6'):
-    stream = list of "ok"/"err" items received before the channel closes. Returns (outcome, hashes inserted)."""
+    stream = list of "ok"/"err" items received before the channel closes, "end" = the task's completion marker (marker: whether
+    the per-run channel carries Option<Hash> items with None as that marker). Returns (outcome, hashes inserted)."""
     from . import feval as E, coll
     C = coll.Collections(f)
     st = {"i": 0}
@@ -423,7 +424,10 @@ def eval_protect_cb(f, path, start_ok, reply_ok, stream):
                 st["i"] += 1
                 if i >= len(stream):
                     return E.NONE
-                return E.Some(E.Ok(E.Tok("hash%d" % i))) if stream[i] == "ok" else E.Some(E.Err(E.Tok("error%d" % i)))
+                if stream[i] == "end":
+                    return E.Some(E.Ok(E.NONE)) if marker else E.NONE
+                item = E.Tok("hash%d" % i)
+                return E.Some(E.Ok(E.Some(item) if marker else item)) if stream[i] == "ok" else E.Some(E.Err(E.Tok("error%d" % i)))
         return None
     def caps(nm, ty):
         if "mpsc::Sender" in ty:
@@ -451,6 +455,9 @@ def gc_protect(ctx):
         raise mir.AnchorMissing("expected one future in engine.rs that calls SyncHandle::content_hashes (the gc-protect task) and one that builds the ProtectOutcome (the protect callback); found %s / %s" % ([b.path for b in tasks], [b.path for b in cbs]))
     task, cb = tasks[0], cbs[0]
     ctx.touch(task, cb)
+    # does the per-run channel distinguish "the list is complete" from "the sender went away"? (item type Option<Hash>: None = complete)
+    hadt = f.adt("engine::ProtectCallbackHandler")
+    marker = "Option<iroh_blobs::Hash>" in hadt["variants"][0]["fields"][0]["ty"].replace("std::option::", "")
     # the task: a failure to list the hashes is forwarded to the collector (or the collector would see an empty, cleanly ended
     # stream and delete everything the documents reference); otherwise every item - row errors included - is forwarded in order
     got, log = eval_protect_task(f, task.path, "err")
@@ -460,19 +467,21 @@ def gc_protect(ctx):
     for hs in ([], ["ok", "ok"], ["ok", "err", "ok"]):
         got, log = eval_protect_task(f, task.path, hs)
         sent = [e[1] for e in log if e[0] == "send"]
-        want = ["Ok(hash%d)" % i if h == "ok" else "Err(row-error%d)" % i for i, h in enumerate(hs)]
+        want = [("Ok(Some(hash%d))" if marker else "Ok(hash%d)") % i if h == "ok" else "Err(row-error%d)" % i for i, h in enumerate(hs)] + (["Ok(None)"] if marker else [])
         ctx.check(not got.startswith("UNSUPPORTED") and sent == want and ("reply", "hash-rx") in log, "C16.R5", task.path, "protect-task[rows=%s]" % ",".join(hs),
                   "task returns %s, sends %s; spec: %s (every row of the content-hash iterator, errors included, reaches the collector)" % (got, sent, want), task.sp)
     # the callback: Continue only if the request went through and every received item was a hash, all of them marked live
-    cells = [(True, True, []), (True, True, ["ok", "ok"]), (True, True, ["ok", "err"]), (True, True, ["err"]), (False, True, []), (True, False, [])]
+    cells = [(True, True, ["end"]), (True, True, ["ok", "ok", "end"]), (True, True, ["ok", "err"]), (True, True, ["err"]), (False, True, []), (True, False, []),
+             # the task was aborted while it streamed (the engine was dropped during a collection run): the channel just closes
+             (True, True, ["ok", "ok"]), (True, True, [])]
     for start_ok, reply_ok, stream in cells:
-        got, live = eval_protect_cb(f, cb.path, start_ok, reply_ok, stream)
-        good = start_ok and reply_ok and "err" not in stream
+        got, live = eval_protect_cb(f, cb.path, start_ok, reply_ok, stream, marker)
+        good = start_ok and reply_ok and "err" not in stream and stream[-1:] == ["end"]
         want = "Continue" if good else "Abort"
         want_live = ["hash%d" % i for i, h in enumerate(stream) if h == "ok"] if good else None
         ok = got == want and (want_live is None or live == want_live)
         ctx.check(ok, "C16.R5", cb.path, "protect-callback[request=%s,reply=%s,stream=%s]" % ("ok" if start_ok else "fails", "ok" if reply_ok else "dropped", ",".join(stream) or "empty"),
-                  "returns %s with %s marked live; spec: %s%s (a collection run continues only with every document hash protected)" % (got, live, want, "" if want_live is None else " with %s" % want_live), cb.sp)
+                  "returns %s with %s marked live; spec: %s%s (a collection run continues only with every document hash protected: the list must have been received to its end)" % (got, live, want, "" if want_live is None else " with %s" % want_live), cb.sp)
 
 def r5(ctx):
     f = ctx.facts
@@ -506,7 +515,7 @@ def r5(ctx):
     ctx.check(ok, "C16.R5", it.path, "forwards-every-row", "next() forwards the underlying range's next()", it.sp)
     # gc protect: the documents' hashes reach the collector, and any failure on the way aborts the collection run
     gc_protect(ctx)
-    ctx.floor("C16.R5", 9)
+    ctx.floor("C16.R5", 11)
 
 
 def r6(ctx):
